@@ -386,7 +386,7 @@ func (g *Gen) DocFrom(forUpdate bool, pInc float64, cur map[string]any) GenDoc {
 	// a narrow update names a single top-level field (the others must stay as
 	// they are, in the document and in every index)
 	only := ""
-	if forUpdate && len(flds) > 0 && g.R.Intn(4) == 0 {
+	if forUpdate && !g.ForceDelete && len(flds) > 0 && g.R.Intn(4) == 0 {
 		cands := append(append([]string{}, flds...), "x")
 		only = cands[g.R.Intn(len(cands))]
 	}
